@@ -49,6 +49,7 @@ class World:
                       "rejected_loudly": 0, "bit_equal": 0}
         self.extra_oracles = []
         self.on_edit_raised = []
+        self.on_fresh_failure = []
         self.last_sol = {}
 
     # -- bookkeeping
@@ -356,6 +357,8 @@ class World:
             fresh = build(program(act.spec), "fresh")
             recF = self.handoff(fresh)
         except Exception as e:
+            for h in self.on_fresh_failure:
+                h(self, act, e)
             raise Discard("fresh write of the final specification fails: %s %s" % (type(e).__name__, str(e)[:300]))
         if err is not None:
             if st["pending"]:
